@@ -102,9 +102,13 @@ def check_property(pid, tier, seed, keep=False):
     try:
         rc = _check(pid, P, tier, seed, bdir, ev)
     except (EX.ExtractError, LexError, SyntaxError) as e:
-        log('UNDECIDED property=%s reason=extractor: %s' % (pid, e))
         cov.setdefault('explanation', 'undecided: extractor: %s' % e)
-        rc = 2
+        cov['undecided'] = ['extractor: %s' % e]
+        if concrete_fallback(pid, seed, ev, cov['undecided']):
+            rc = 1
+        else:
+            log('UNDECIDED property=%s reason=extractor: %s' % (pid, e))
+            rc = 2
     finally:
         ev['wall_s'] = round(time.time() - t0, 2)
         write_evidence(pid, ev, rc)
@@ -138,6 +142,9 @@ def _check(pid, P, tier, seed, bdir, ev):
     samples = []
     extraction = {}
     solver_ms = 0
+    probs, suites_seen = scan_suite_overrides()
+    cov['suite_overrides_scan'] = dict(problems=probs, defined={k: len(v) for k, v in suites_seen.items()})
+    undecided.extend(probs)
     for uname in P.get('units', ['frost_core']):
         cfg = load_unit_cfg(uname)
         cfg['crate_name'] = 'unit'
@@ -162,13 +169,32 @@ def _check(pid, P, tier, seed, bdir, ev):
             undecided.append('unit %s: Verus rejected the unit (not a verification verdict): %s%s' % (uname, msg, loc))
             open(os.path.join(VERIF, 'build', 'last_undecided_%s.txt' % pid), 'w').write(r.raw_stderr[-20000:])
             continue
+        # trusted text: assumed functions and files outside the units must be the text the contracts were written for
+        tpath = os.path.join(VERIF, 'contracts', 'trusted_text.lock.json')
+        tlock = json.load(open(tpath)) if os.path.exists(tpath) else None
+        changed_assumed = set()
+        if tlock:
+            for f in meta['functions']:
+                want = tlock['assumed_functions'].get(f['key'])
+                if want and f['mode'] == 'assumed' and 'E9' not in f.get('rules', []) and f.get('norm_sha') != want:
+                    changed_assumed.add(f['key'])
+            for rel, plist in cfg.get('trusted_files', {}).items():
+                if pid not in plist or rel not in tlock['files']:
+                    continue
+                try:
+                    cur = EX.norm_sha(open(os.path.join(REPO, rel)).read())
+                except Exception as e:
+                    cur = 'unreadable: %s' % e
+                if cur != tlock['files'][rel]:
+                    undecided.append('trusted file %s changed (not verified by any unit; the proof of %s assumes its behaviour)' % (rel, pid))
         # which functions serve this property
         tags = lemma_tags(cfg)
+        pids = set([pid] + list(P.get('include', [])))   # a property may rest on the functions/lemmas of others (e.g. C01 on key generation)
         serving = {}
         for f in meta['functions']:
-            if pid in f.get('serves', []) or (P.get('all_functions') and f['mode'] in ('verified', 'transparent')):
+            if (pids & set(f.get('serves', []))) or (P.get('all_functions') and f['mode'] in ('verified', 'transparent')):
                 serving[f['key']] = f
-        lemma_serving = {nm: t for nm, t in tags.items() if pid in t['serves'] or 'ALL' in t['serves']}
+        lemma_serving = {nm: t for nm, t in tags.items() if (pids & set(t['serves'])) or 'ALL' in t['serves']}
         # per-function accounting
         for key, f in sorted(serving.items()):
             vn = VR.resolve_name(r, f['verus_name'])
@@ -191,8 +217,12 @@ def _check(pid, P, tier, seed, bdir, ev):
                     total_dis += nobl
                 else:
                     total_dis += max(0, nobl - max(1, len(ffails)))
+            elif 'E9' in f.get('rules', []):
+                trusted.append('contract assumed in unit %s, verified in the unit that owns the crate (E9): %s' % (uname, VR.short(key)))
             else:
                 trusted.append('assumed contract (not verified here): %s' % VR.short(key))
+                if key in changed_assumed:
+                    undecided.append('the text of %s changed but its contract is only ASSUMED: no longer trusted' % VR.short(key))
         for nm, t in sorted(lemma_serving.items()):
             st = r.fn_status.get(nm)
             nobl = r.obligations.get(nm, 0)
@@ -219,43 +249,124 @@ def _check(pid, P, tier, seed, bdir, ev):
         extraction[uname] = dict(rules=meta['rules'], functions_total=len(meta['functions']),
                                  dropped_items=len(meta['dropped']), unit_lines=text.count('\n'), unit_sha256=hashlib.sha256(text.encode()).hexdigest()[:16],
                                  trusted_scan=scan_trusted(text))
+        # thorough tier: vacuity guards -- with `assert(false)` injected every serving function / lemma must FAIL (a contradictory
+        # precondition, an assume that excludes everything or a body that is never checked would let it pass)
+        if tier == 'thorough' and not failures:
+            vac = {}
+            for kind in ('canary', 'lemma_canary'):
+                c2 = load_unit_cfg(uname)
+                c2['crate_name'] = 'unit'
+                c2[kind] = True
+                t2, m2 = EX.build_unit(c2)
+                p2 = os.path.join(os.path.dirname(unit_path), kind, 'unit.rs')
+                os.makedirs(os.path.dirname(p2), exist_ok=True)
+                open(p2, 'w').write(t2)
+                r2 = VR.run_verus(p2, os.path.join(os.path.dirname(p2), 'vlog'), timeout=P.get('timeout', 1800))
+                cmds.append('cd <build>/%s && %s   # vacuity guard' % (kind, r2.cmd))
+                survivors = []
+                n2 = 0
+                if r2.json is None:
+                    undecided.append('vacuity guard %s of unit %s did not run' % (kind, uname))
+                    continue
+                if kind == 'canary':
+                    for f in m2['functions']:
+                        if f['key'] in serving and f['mode'] == 'verified':
+                            n2 += 1
+                            st2 = r2.fn_status.get(VR.resolve_name(r2, f['verus_name']))
+                            if st2 is None or st2['success']:
+                                survivors.append(VR.short(f['key']))
+                else:
+                    for nm in re.findall(r'/\*@LCANARY (\w+)\*/', t2):
+                        hits = [(k, st2) for k, st2 in r2.fn_status.items() if k.split('::')[-1] == nm]
+                        if not any(k in lemma_serving for k, _ in hits) and hits:
+                            continue
+                        n2 += 1
+                        if not hits or any(st2['success'] for k, st2 in hits):
+                            survivors.append(nm)
+                vac[kind] = dict(checked=n2, survivors=survivors)
+                if survivors:
+                    undecided.append('vacuity guard (%s) of unit %s: these verify even with assert(false) injected: %s' % (kind, uname, ', '.join(survivors[:8])))
+            cov.setdefault('vacuity_guards', {})[uname] = vac
         # samples: the named obligations of the serving functions
         for (l, key, kind, name, n) in clauses:
             if key in serving and len(samples) < 40:
                 samples.append('%s :: %s[%s]' % (VR.short(key), kind, name))
-    # Kani part
+    # Kani part: harnesses over the REAL frost-core monomorphised at toy ciphersuites (kani/README.md).  `complete` harnesses (loop-free or
+    # width-bounded loops, full input domain of the toy instantiation) count as obligations; `bounded` ones are stand-ins for assumed
+    # contracts: reported, labelled bounded, never counted as proved.  A failing harness comes with Kani's concrete counterexample.
     kani = None
-    if P.get('kani'):
+    if P.get('kani') and not os.environ.get('VERIF_NO_KANI'):
         kani = run_kani(pid, P, tier, bdir)
-        cov['kani'] = kani['harnesses']
         cmds.append(kani['cmd'])
+        kcomplete, kbounded, kincomplete = [], [], []
         for h in kani['harnesses']:
+            brief = dict(name=h['name'], status=h['status'], expect=h.get('expect', 'pass'), kind=h.get('kind'), bound=h.get('bound'), checks_total=h.get('checks_total'),
+                         wall_s=h.get('wall_s'), max_rss_mb=h.get('max_rss_mb'), backs=(h.get('backs') or '')[:300])
             if h.get('expect', 'pass') == 'pass':
-                total_obl += h.get('checks_total', 0) or 1
                 if h['status'] == 'pass':
-                    total_dis += h.get('checks_total', 0) or 1
+                    if h.get('kind') == 'complete':
+                        kcomplete.append(brief)
+                        total_obl += h.get('checks_total', 0) or 1
+                        total_dis += h.get('checks_total', 0) or 1
+                    else:
+                        kbounded.append(brief)
                 elif h['status'] == 'fail':
                     f = VR.Failure()
-                    f.message = 'Kani harness %s FAILED: %s' % (h['name'], '; '.join(h.get('failed_checks', [])[:3]))
+                    fc = h.get('failed_checks') or []
+                    f.message = 'Kani harness %s FAILED: %s' % (h['name'], '; '.join((c.get('description') if isinstance(c, dict) else str(c)) for c in fc[:3]))
                     f.obligation = 'kani :: %s' % h['name']
-                    f.rendered = json.dumps(h, indent=1)
+                    f.rendered = json.dumps(h, indent=1)[:8000]
                     f.fn_key = None
                     f.kani = h
                     failures_all.append(f)
                 else:
-                    undecided.append('kani harness %s: %s' % (h['name'], h['status']))
+                    kincomplete.append(brief)
             else:
                 if h['status'] == 'pass':
                     undecided.append('kani negative control %s unexpectedly passed (vacuity guard)' % h['name'])
+                elif h['status'] != 'fail':
+                    kincomplete.append(brief)
+        for b2 in (kcomplete + kbounded)[:30]:
+            samples.append('kani :: %s [%s%s]' % (b2['name'], b2['kind'], (': ' + b2['bound']) if b2.get('bound') and b2['bound'] != '-' else ''))
+        cov['kani'] = dict(complete=kcomplete, bounded_standins=kbounded, not_finished=kincomplete, error=kani.get('error'),
+                           note='toy ciphersuites Toy251 / Toy65537 / Wide<N>; bounded stand-ins are NOT counted in obligations/discharged')
         if kani.get('error'):
-            undecided.append('kani layer: ' + kani['error'])
+            undecided.append('kani layer: ' + str(kani['error'])[:300])
+        if kincomplete and (not P.get('units') or P.get('kani_required')):
+            undecided.append('kani harnesses did not finish (timeout/error): %s' % ', '.join(b['name'] for b in kincomplete[:8]))
+    # sampled validation of assumed contracts on the REAL ciphersuite crates (labelled as such, never counted as proved)
+    if P.get('rt_always') or (tier == 'thorough' and not os.environ.get('VERIF_NO_RT')):
+        import rtcheck
+        res = rtcheck.search(pid, 'assumption validation', seed, budget_s=(P.get('rt_budget_thorough', 90) if tier == 'thorough' else P.get('rt_budget', 10))) if rtcheck.available() else None
+        if res is None:
+            undecided.append('concrete validation runner (rt/) unavailable')
+        else:
+            m = re.search(r'RT-OK property=\S+ cases=(\d+)', res.get('stdout_tail', ''))
+            cov['concrete_validation'] = dict(what=P.get('rt_what', 'scenarios of rt/README.md for this property: real crates, all six suites, oracles from the property statement'), cmd=res.get('cmd'), found=res.get('found'), cases=int(m.group(1)) if m else None,
+                                              label='sampled (not a proof)', tail=res.get('stdout_tail', '')[-400:])
+            cmds.append(res.get('cmd', ''))
+            if res.get('found'):
+                f = VR.Failure()
+                sc = res['case'].get('scenario', '?') if isinstance(res['case'], dict) else '?'
+                f.obligation = 'concrete validation :: %s' % sc
+                f.message = 'an assumed contract is violated by the real code on a concrete input'
+                f.rendered = json.dumps(res['case'], indent=1)[:6000]
+                f.fn_key = None
+                f.kani = dict(counterexample=res['case'])
+                failures_all.append(f)
+            elif 'no-scenarios-for-this-property' in (res.get('stdout_tail') or ''):
+                cov['concrete_validation']['label'] = 'no concrete scenarios exist for this property (nothing explored)'
+            elif res.get('error') or res.get('rc') != 0:
+                undecided.append('concrete validation: %s' % (res.get('error') or ('runner exit %s' % res.get('rc'))))
+            else:
+                cov['evaluations'] = cov['concrete_validation']['cases'] or 0
     cov['obligations'] = total_obl
     cov['discharged'] = total_dis
     cov['checker_cmd'] = ' ;; '.join(cmds)
     cov['functions'] = fn_report
     cov['functions_under_contract'] = len([f for f in fn_report if f['mode'] in ('verified', 'transparent')])
     cov['extraction'] = extraction
-    cov['solver'] = 'z3 (bundled with Verus 0.2026.09.13)' + ('; CBMC 6.11 + kissat via Kani 0.68' if kani else '')
+    cov['solver'] = ('z3 (bundled with Verus 0.2026.09.13)' if P.get('units') else '') + ('; CBMC 6.11 + kissat via Kani 0.68' if kani else '')
     cov['solver_time_ms'] = solver_ms
     cov['samples'] = samples or ['(no named obligations)']
     cov['trusted_base'] = sorted(set(trusted + P.get('trusted_base', []) + PR.GLOBAL_TRUSTED))
@@ -283,7 +394,11 @@ def _check(pid, P, tier, seed, bdir, ev):
         rc = 1
     ev['violations'] = len(seen)
     cov['failed_obligations'] = sorted(seen)
+    undecided = list(dict.fromkeys(undecided))
     if rc == 0 and undecided:
+        if concrete_fallback(pid, seed, ev, undecided):
+            cov['undecided'] = undecided
+            return 1
         for u in undecided:
             log('UNDECIDED property=%s reason=%s' % (pid, u))
         cov['undecided'] = undecided
@@ -295,6 +410,76 @@ def _check(pid, P, tier, seed, bdir, ev):
         log('OK property=%s obligations=%d discharged=%d functions_under_contract=%d solver_ms=%d' %
             (pid, total_obl, total_dis, cov['functions_under_contract'], solver_ms))
     return rc
+
+
+SUITE_BASE = ['ID', 'Group', 'HashOutput', 'SignatureSerialization', 'H1', 'H2', 'H3', 'H4', 'H5', 'HDKG', 'HID']
+SUITES = {
+    'frost-ed25519': SUITE_BASE, 'frost-ed448': SUITE_BASE, 'frost-p256': SUITE_BASE, 'frost-ristretto255': SUITE_BASE, 'frost-secp256k1': SUITE_BASE,
+    'frost-secp256k1-tr': SUITE_BASE + ['single_sign', 'pre_sign', 'pre_aggregate', 'pre_verify', 'generate_nonce', 'challenge', 'compute_signature_share',
+                                        'verify_share', 'serialize_signature', 'deserialize_signature', 'post_dkg'],
+}
+
+
+def scan_suite_overrides():
+    """The generic theorems hold in the "default world" (lemmas/vworld.rs: a suite that does not override the optional hooks).  Read from
+    source which items each `impl Ciphersuite for ..` defines and fail closed (undecided, never a pass) on anything unexpected."""
+    from rustlex import strip_comments, find_matching
+    problems = []
+    seen = {}
+    for crate, want in SUITES.items():
+        path = os.path.join(REPO, crate, 'src', 'lib.rs')
+        try:
+            src = strip_comments(open(path).read())
+            m = re.search(r'impl\s+Ciphersuite\s+for\s+(\w+)\s*\{', src)
+            b = src.index('{', m.start())
+            body = src[b + 1:find_matching(src, b)]
+            names = []
+            depth = 0
+            for mm in re.finditer(r'[{}]|\bfn\s+(\w+)|\btype\s+(\w+)|\bconst\s+(\w+)', body):
+                t = mm.group(0)
+                if t == '{':
+                    depth += 1
+                elif t == '}':
+                    depth -= 1
+                elif depth == 0:
+                    names.append(mm.group(1) or mm.group(2) or mm.group(3))
+        except Exception as e:
+            problems.append('%s: cannot read its `impl Ciphersuite` block (%s)' % (crate, e))
+            continue
+        seen[crate] = names
+        if sorted(names) != sorted(want):
+            extra = sorted(set(names) - set(want))
+            missing = sorted(set(want) - set(names))
+            problems.append('%s: `impl Ciphersuite` defines %s%s -- the default-world assumption (or the Taproot unit) was written for another set of overrides'
+                            % (crate, ('additionally ' + ', '.join(extra)) if extra else '', (' and no longer ' + ', '.join(missing)) if missing else ''))
+    return problems, seen
+
+
+def concrete_fallback(pid, seed, ev, undecided):
+    """The verifier could not decide: a concrete failing input on the real code still is a violation (never the other way round)."""
+    cov = ev['coverage']
+    res = None
+    try:
+        import rtcheck
+        res = rtcheck.search(pid, 'undecided', seed)
+    except Exception as e:
+        cov['rtcheck_error'] = str(e)
+    if res is not None:
+        cov['concrete_search'] = {k: v for k, v in res.items() if k != 'case'}
+    if res and res.get('found'):
+        x = VR.Failure()
+        sc = res['case'].get('scenario', '?') if isinstance(res['case'], dict) else '?'
+        x.obligation = 'concrete replay :: %s' % sc
+        x.message = ('the verifier was undecided (%s); the concrete search found an input on which the real code violates the property'
+                     % '; '.join(undecided)[:600])
+        x.rendered = json.dumps(res['case'], indent=1)[:6000]
+        x.kani = dict(counterexample=res['case'])
+        path, found = write_replay(pid, x, seed)
+        log('VIOLATION property=%s replay=%s obligation="%s"' % (pid, path, x.obligation))
+        ev['violations'] = 1
+        cov['failed_obligations'] = [x.obligation]
+        return True
+    return False
 
 
 def write_replay(pid, x, seed):
@@ -324,11 +509,12 @@ def write_replay(pid, x, seed):
         try:
             import rtcheck
             res = rtcheck.search(pid, x.obligation, seed)
-            if res:
-                rep['concrete_input'] = res
-                found = True
-        except ImportError:
-            pass
+            if res is not None:
+                rep['concrete_search'] = {k: v for k, v in res.items() if k != 'case'}
+                if res.get('found'):
+                    rep['concrete_input'] = res['case']
+                    rep['replay_cmd'] = '%s %s %s --repo %s --replay <this file>.concrete_input' % (sys.executable, rtcheck.RUNNER, pid, REPO)
+                    found = True
         except Exception as e:
             rep['rtcheck_error'] = str(e)
     if not found:
@@ -350,7 +536,10 @@ def run_kani(pid, P, tier, bdir):
     try:
         p = subprocess.run(cmd, capture_output=True, text=True, timeout=P.get('kani_timeout', 7200), env=dict(os.environ, VERIF_REPO=REPO))
         if os.path.exists(out):
-            res['harnesses'] = json.load(open(out))
+            data = json.load(open(out))
+            res['harnesses'] = data.get('harnesses', []) if isinstance(data, dict) else data
+            if isinstance(data, dict) and data.get('error'):
+                res['error'] = data['error']
         else:
             res['error'] = 'run_kani.py produced no result (rc=%s): %s' % (p.returncode, (p.stderr or '')[-400:])
     except subprocess.TimeoutExpired:
